@@ -78,7 +78,7 @@ let () =
   (* which properties a predicate speaks about *)
   let relevant name = pid = "" || List.mem pid (match name with
     | "mon16" -> ["C16"] | "eager_b" -> ["C08"] | "runE" -> ["C03"; "C08"] | "runC" -> ["C03"; "C10"] | "runK" -> ["C03"; "C07"]
-    | "chk" -> ["C03"; "C11"; "C12"] | "chkN" -> ["C11"; "C12"] | "chkN-strict" -> ["C11"] | "once_b" -> ["C11"; "C12"] | "bal_b" -> ["C02"; "C05"] | _ -> []) in
+    | "chk" -> ["C03"; "C11"; "C12"] | "chkN" -> ["C11"; "C12"] | "chkN-strict" -> ["C11"] | "once_b" -> ["C11"; "C12"] | "bal_b" -> ["C02"; "C05"] | "c05_b" -> ["C04"; "C05"] | _ -> []) in
   let nfail = ref 0 and neval = ref 0 in
   (try while true do
     let case = input_line cases in let trace = input_line traces in
@@ -111,7 +111,9 @@ let () =
            if (comb = "fgroup" || comb = "fgroup_keyed") && noend live then check "chkN-strict" (lazy (chkN true O O live));
            if comb = "fgroup_keyed" || comb = "sgroup_keyed" then check "once_b" (lazy (once_b live))
          end;
-         if comb = "join" || comb = "try_join" then check "bal_b" (lazy (bal_b (nat_of_int n) (strip t))))
+         if comb = "join" || comb = "try_join" then check "bal_b" (lazy (bal_b (nat_of_int n) (strip t)));
+         (* C04 / C05: at most one result; positional Ok vector, or the first error returned with its poll (c05_b_holds) *)
+         if comb = "join" || comb = "try_join" then check "c05_b" (lazy (c05_b (comb = "try_join") (nat_of_int n) live)))
     | _ -> ()
   done with End_of_file -> ());
   Printf.printf "evaluated=%d failed=%d\n" !neval !nfail
